@@ -192,7 +192,7 @@ type HostSub struct{}
 // Mark records an observable event (three-level call S.Sub.Mark(x), used inside conc blocks)
 func (s *HostSub) Mark(x int64) {
 	if curHost != nil {
-		time.Sleep(100 * time.Microsecond)
+		curHost.delay(100 * time.Microsecond)
 		curHost.rec("mark", x)
 	}
 }
@@ -203,8 +203,16 @@ func (s *HostS) AddI64(x int64) int64 { return s.I64 + x }
 // Note records an observable event (used inside conc blocks); curHost is the case being run.
 func (s *HostS) Note(x int64) {
 	if curHost != nil {
-		time.Sleep(150 * time.Microsecond)
+		curHost.delay(150 * time.Microsecond)
 		curHost.rec("note", x)
+	}
+}
+
+// delay sleeps for the first few dozen calls of a case only, so that a loop running to its cut-off
+// with observers inside cannot add up to the watchdog's limit
+func (h *hostEnv) delay(d time.Duration) {
+	if atomic.AddInt64(&h.delays, 1) <= 64 {
+		time.Sleep(d)
 	}
 }
 
@@ -259,6 +267,7 @@ type hostEnv struct {
 	mu    sync.Mutex
 	trace []traceEv
 	dc    *context.DataContext
+	delays int64
 	// concurrent-execution probe (C15): tick() hands out 1,2,3,…; sync() waits for syncN arrivals
 	tickN   int64
 	syncN   int
@@ -326,7 +335,7 @@ func (h *hostEnv) funcValue(id string) interface{} {
 	case "obsS":
 		return func(s string) { h.rec("obsS", s) }
 	case "obsC":
-		return func(x int64) { time.Sleep(150 * time.Microsecond); h.rec("obsC", x) }
+		return func(x int64) { h.delay(150 * time.Microsecond); h.rec("obsC", x) }
 	case "bump":
 		return func() int64 {
 			h.mu.Lock()
